@@ -30,6 +30,16 @@ type world struct {
 	trace     []string
 	faults    int // drops/dups/reorders/reflections observed (for non-triviality)
 	delivered map[string]int
+	salted    bool // the pair authenticates with a randomised signature scheme from a custom registry
+}
+
+// newSaltedWorld is newWorld with keys of the salted scheme.
+func newSaltedWorld() *world {
+	w := newWorld()
+	w.salted = true
+	w.s[0] = newSaltedSession(0, true, tBase)
+	w.s[1] = newSaltedSession(1, false, tBase)
+	return w
 }
 
 func newWorld() *world {
@@ -200,6 +210,9 @@ func (w *world) fairSuffix() (problem string) {
 	}
 	ka, kb := w.s[0].RemoteKey(), w.s[1].RemoteKey()
 	pa, pb := testPub(1), testPub(0)
+	if w.salted {
+		pa, pb = saltedPub[1], saltedPub[0]
+	}
 	if !x509.EqualPublicKeys(&ka, &pa) || !x509.EqualPublicKeys(&kb, &pb) {
 		return fmt.Sprintf("remote keys after completion: A sees %s, B sees %s", keyName(ka), keyName(kb))
 	}
@@ -336,9 +349,13 @@ func TestC06Exhaustive(t *testing.T) {
 
 func TestC06Random(t *testing.T) {
 	const sub = "C06.schedules_random"
-	ev.Rule(sub, "rapid: random schedules of up to 60 enabled actions (same action set and oracles as schedules_exhaustive), each followed by the fair suffix; non-trivial = schedule containing a duplicate, reflected or out-of-order delivery before completion; distinct by action sequence")
+	ev.Rule(sub, "rapid: random schedules of up to 60 enabled actions (same action set and oracles as schedules_exhaustive; in one case of four the pair authenticates with a randomised signature scheme - salted Ed25519 - from a custom registry, so that a rebuilt handshake message differs from the remembered one), each followed by the fair suffix; non-trivial = schedule containing a duplicate, reflected or out-of-order delivery before completion; distinct by action sequence")
 	rapid.Check(t, func(t *rapid.T) {
 		w := newWorld()
+		if rapid.IntRange(0, 3).Draw(t, "signatureScheme") == 0 {
+			w = newSaltedWorld()
+			ev.Class(sub, "randomised-signature-scheme")
+		}
 		n := rapid.IntRange(0, 60).Draw(t, "len")
 		for i := 0; i < n; i++ {
 			as := w.enabled()
